@@ -194,7 +194,7 @@ func design(rep *mbt.Report, tier string) {
 	for _, inv := range []string{"NeverFails", "AlwaysFails", "NeverSkips"} {
 		add("vacuity/"+inv, "Writer", "WriterVacuity.cfg", []string{inv}, nil, []string{inv})
 	}
-	sem := make(chan struct{}, 3)
+	sem := make(chan struct{}, 5)
 	var wg sync.WaitGroup
 	for _, j := range jobs {
 		wg.Add(1)
@@ -225,7 +225,7 @@ func design(rep *mbt.Report, tier string) {
 }
 
 var reVec = regexp.MustCompile(`<<"VEC", (\d+), "(\w+)", (TRUE|FALSE), (-?\d+), (\d+), (\d+), (\d+), (\d+), (\d+), (\d+)>>`)
-var reBad = regexp.MustCompile(`<<"BADRUN", "(\w+)", \{([^}]*)\}, (\d+)>>`)
+var reBad = regexp.MustCompile(`<<\s*"BADRUN",\s*"(\w+)",\s*\{([^}]*)\},\s*(\d+)\s*>>`)
 
 type vector struct {
 	b                        behaviour
@@ -413,9 +413,17 @@ func Run(tier, replay string) {
 		}
 	}
 	rng := rand.New(rand.NewSource(seed))
+	phases := map[string]float64{}
+	t0 := time.Now()
+	lap := func(name string) {
+		phases[name] = time.Since(t0).Seconds()
+		t0 = time.Now()
+		rep.Extra["phase_seconds"] = phases
+	}
 
 	if replay == "" {
 		design(rep, tier)
+		lap("design-level TLC")
 	}
 
 	subs, rejected := corpus(tier, rng)
@@ -468,7 +476,7 @@ func Run(tier, replay string) {
 	gPieces, tPieces := []int{0, 2, 7}, []int{0, 7}
 	gLimit, allLimit, stride := 700, 1600, 37
 	if tier == "thorough" {
-		gPieces, tPieces = []int{0, 1, 2, 7, 64}, []int{0, 1, 7, 64}
+		gPieces, tPieces = []int{0, 1, 2, 7, 64}, []int{0, 7}
 		gLimit, allLimit, stride = 3000, 12000, 5
 	}
 	var small []int
@@ -533,6 +541,12 @@ func Run(tier, replay string) {
 	rep.Extra["modules_every_offset"] = allOffsets
 	rep.Extra["modules_strided_offsets"] = strided
 
+	lap("runs of WriteTo")
+	entries := 0
+	for _, r := range recs {
+		entries += len(r.Off)
+	}
+	rep.Extra["logged_write_calls"] = entries
 	// (G) required outcomes generated by TLC from the specification, compared with the runs
 	vecs := generate(rep, subs, small, gPieces)
 	obs := map[string]*runRec{}
@@ -583,8 +597,10 @@ func Run(tier, replay string) {
 			"required": map[string]int{"n": v.n, "errAt": v.errAt, "calls": v.calls, "delivered": v.dlen}, "observed": describe(r)})
 	}
 
+	lap("generator TLC + comparison")
 	// (T) every run judged by TLC
 	judge(rep, subs, recs)
+	lap("trace TLC")
 	for _, i := range []int{len(recs) / 3, 2 * len(recs) / 3, len(recs) - 1} {
 		r := recs[i]
 		rep.Sample(map[string]interface{}{"kind": "recorded-run", "module": subs[r.src].Name, "writer": fmt.Sprintf("%+v", r.b), "observed": describe(r)})
